@@ -4,5 +4,5 @@ CONSTANTS Agents = {"a1","a2"}
  AllowCrash = TRUE
  FixStatus = TRUE
  ExclusiveBind = TRUE
-INVARIANTS C08_NoError
+INVARIANTS C16_NoOverlap C16_RefusedRecordsNothing
 CHECK_DEADLOCK FALSE
